@@ -73,21 +73,48 @@ def cBinLevel : P → Option (BinOp × Nat)
   | .andand => some (.and, 3) | .oror => some (.or, 2)
   | _ => none
 
+/-- binary operator token → (operator, level) -/
+def binOf : Tok → Option (BinOp × Nat)
+  | .p o => cBinLevel o
+  | _ => none
+
+/-- primary expressions that are single tokens -/
+def atomOf : Tok → Option PT
+  | .num s => some (.num s)
+  | .id s => some (.id s)
+  | _ => none
+
+/-- a function designator: an identifier -/
+def nameOf : PT → Option String
+  | .id s => some s
+  | _ => none
+
+/- The parser functions below are written with non-overlapping matches and `if t = tok` tests
+   only, so that they unfold predictably in the proofs of FfcxProofs/Lemmas/FormatParse.lean. -/
 mutual
-/-- conditional-expression -/
+/-- conditional-expression: `logical-OR-expression [? expression : conditional-expression]` -/
 def parseCond : Nat → List Tok → Option (PT × List Tok)
   | 0, _ => none
   | f + 1, ts =>
     match parseBin f 2 ts with
     | none => none
-    | some (c, .p .quest :: r1) =>
-      match parseCond f r1 with
-      | some (t, .p .colon :: r3) =>
-        match parseCond f r3 with
-        | some (e, r4) => some (.cond c t e, r4)
-        | none => none
-      | _ => none
-    | some (c, r) => some (c, r)
+    | some (c, r) =>
+      match r with
+      | [] => some (c, [])
+      | t :: r1 =>
+        if t = .p .quest then
+          match parseCond f r1 with
+          | none => none
+          | some (tt, r2) =>
+            match r2 with
+            | [] => none
+            | t2 :: r3 =>
+              if t2 = .p .colon then
+                match parseCond f r3 with
+                | none => none
+                | some (e, r4) => some (.cond c tt e, r4)
+              else none
+        else some (c, t :: r1)
 /-- binary expression whose operators all have level ≥ `m` -/
 def parseBin : Nat → Nat → List Tok → Option (PT × List Tok)
   | 0, _, _ => none
@@ -95,72 +122,91 @@ def parseBin : Nat → Nat → List Tok → Option (PT × List Tok)
     match parseUnary f ts with
     | none => none
     | some (l, r) => loopBin f m l r
-/-- continue a binary expression with left operand `l` -/
+/-- continue a binary expression with left operand `l` (left associative: the right operand
+    is parsed one level tighter) -/
 def loopBin : Nat → Nat → PT → List Tok → Option (PT × List Tok)
   | 0, _, _, _ => none
   | f + 1, m, l, ts =>
     match ts with
-    | .p o :: r =>
-      match cBinLevel o with
+    | [] => some (l, [])
+    | t :: r =>
+      match binOf t with
+      | none => some (l, t :: r)
       | some (op, lv) =>
         if m ≤ lv then
           match parseBin f (lv + 1) r with
           | none => none
           | some (rhs, r') => loopBin f m (.bin op l rhs) r'
-        else some (l, ts)
-      | none => some (l, ts)
-    | _ => some (l, ts)
-/-- unary-expression (no casts, no `++ -- & * + ~ sizeof`) -/
+        else some (l, t :: r)
+/-- unary-expression (no casts, no `++ -- & * + ~ sizeof`) over postfix-expression -/
 def parseUnary : Nat → List Tok → Option (PT × List Tok)
   | 0, _ => none
   | f + 1, ts =>
     match ts with
-    | .p .minus :: r =>
-      match parseUnary f r with
-      | some (a, r') => some (.un .neg a, r')
-      | none => none
-    | .p .bang :: r =>
-      match parseUnary f r with
-      | some (a, r') => some (.un .not a, r')
-      | none => none
-    | .num s :: r => parsePost f (.num s) r
-    | .id s :: r => parsePost f (.id s) r
-    | .p .lpar :: r =>
-      match parseCond f r with
-      | some (e, .p .rpar :: r') => parsePost f e r'
-      | _ => none
-    | _ => none
-/-- postfix operators applied to `base` -/
+    | [] => none
+    | t :: r =>
+      if t = .p .minus then
+        match parseUnary f r with
+        | none => none
+        | some (a, r') => some (.un .neg a, r')
+      else if t = .p .bang then
+        match parseUnary f r with
+        | none => none
+        | some (a, r') => some (.un .not a, r')
+      else if t = .p .lpar then
+        match parseCond f r with
+        | none => none
+        | some (e, r1) =>
+          match r1 with
+          | [] => none
+          | t1 :: r2 => if t1 = .p .rpar then parsePost f e r2 else none
+      else
+        match atomOf t with
+        | none => none
+        | some b => parsePost f b r
+/-- postfix operators applied to `base`: `[expr]`, and `(args)` after an identifier -/
 def parsePost : Nat → PT → List Tok → Option (PT × List Tok)
   | 0, _, _ => none
   | f + 1, base, ts =>
     match ts with
-    | .p .lbrack :: r =>
-      match parseCond f r with
-      | some (i, .p .rbrack :: r') => parsePost f (.idx base [i]) r'
-      | _ => none
-    | .p .lpar :: r =>
-      match base with
-      | .id name =>
-        match r with
-        | .p .rpar :: r' => parsePost f (.call name []) r'
-        | _ =>
-          match parseArgs f r with
-          | some (args, r') => parsePost f (.call name args) r'
-          | none => none
-      | _ => none
-    | _ => some (base, ts)
+    | [] => some (base, [])
+    | t :: r =>
+      if t = .p .lbrack then
+        match parseCond f r with
+        | none => none
+        | some (i, r1) =>
+          match r1 with
+          | [] => none
+          | t1 :: r2 => if t1 = .p .rbrack then parsePost f (.idx base [i]) r2 else none
+      else if t = .p .lpar then
+        match nameOf base with
+        | none => none
+        | some name =>
+          match r with
+          | [] => none
+          | t1 :: r1 =>
+            if t1 = .p .rpar then parsePost f (.call name []) r1
+            else
+              match parseArgs f r with
+              | none => none
+              | some (args, r') => parsePost f (.call name args) r'
+      else some (base, t :: r)
 /-- argument-expression-list followed by `)` -/
 def parseArgs : Nat → List Tok → Option (List PT × List Tok)
   | 0, _ => none
   | f + 1, ts =>
     match parseCond f ts with
-    | some (e, .p .comma :: r) =>
-      match parseArgs f r with
-      | some (es, r') => some (e :: es, r')
-      | none => none
-    | some (e, .p .rpar :: r) => some ([e], r)
-    | _ => none
+    | none => none
+    | some (e, r) =>
+      match r with
+      | [] => none
+      | t :: r1 =>
+        if t = .p .comma then
+          match parseArgs f r1 with
+          | none => none
+          | some (es, r') => some (e :: es, r')
+        else if t = .p .rpar then some ([e], r1)
+        else none
 end
 
 /-- fuel that always suffices for the formatter's output (see `roundtrip_C`) -/
